@@ -1,5 +1,25 @@
 /-
 C15  CL03 proof of knowledge of a signature (`nisp5Gen`/`nisp5Verify`, `proofGen`/`proofVerify`).
+
+All statements are about the L1 model `ZkModel/L1/Cl.lean`, for an arbitrary suite `cs`, arbitrary
+tapes, any number of attributes. Arithmetic facts about `pow_mod`/`invert` enter through `ArithOK`.
+Algebra is done in `(ℤ/N)ˣ` written additively (`ZkProofs/Lemmas/ClSpok.lean`).
+
+Completeness
+* `spok_complete`  : nine-response proof; the five recomputed inputs equal `t_1 … t_5`.
+  Needs `U` STRICTLY ASCENDING (see the remark there); nothing else about `U`.
+* `proof_complete` : `proof_gen`/`proof_verify`, given the range-proof completeness `RangeComplete cs`
+  (C16) as a named hypothesis; `nisp2sec` completeness is proved here (`nisp2sec_complete'`).
+
+"Does not verify with …" (characterisations with explicit events; a panic is not an acceptance)
+* `spok_statement_binding` : one proof accepted for two statements (any keys, bases, revealed
+  messages, hidden sets, counts) ⇒ the same five hash inputs ∨ `ConcatAmbiguity` ∨ `ClHashCollision`.
+* `spok_revealed_binding`  : … differing in one revealed attribute ⇒ `OrderRelation` on `g_{j0}` ∨ ….
+* `spok_field_tamper_s1 … _s9`, `spok_field_tamper_s5` : one response altered ⇒ `OrderRelation` on the
+  corresponding base ∨ `ConcatAmbiguity` ∨ `ClHashCollision` (`s_6` needs `C_v`, `s_2`/`s_8` need `C_w`
+  invertible modulo `N`).
+* `spok_surplus_ignored`   : OBSERVATION — surplus entries of `s_5` and surplus revealed messages are
+  never read: the claim "does not verify with different revealed attributes" fails for appended ones.
 -/
 import ZkProofs.Lemmas.ClSpok
 set_option linter.unusedSectionVars false
@@ -81,7 +101,7 @@ theorem spok_complete_core (hA : ArithOK) (cs : Suite) (σ : Signature) (cpk : C
   have hP4g : Good N P4 := ⟨hP40, hP4u⟩
   rw [hP1, hP4] at hgen
   rw [idx_eq_pure hn0 1] at hgen
-  simp only [pure_bind, pw_unit hA hN hCvU, pw_unit hA hN hg0, pw_unit hA hN hh, pw_unit hA hN hb,
+  simp only [pure_bind, pw_unit hA hN hCvU, pw_unit hA hN hg0, pw_unit hA hN hh,
     hCwv, pw_can hA hN, divm_one_unit hA hN hg0, divm_one_unit hA hN hh, divm_one_unit hA hN hb,
     tmod_good hN hP1g, divm_one_can hA hN] at hgen
   simp (maxDischargeDepth := 8) only [tmod_good hN, good_mul, good_can hN, hP4g, rp_mul_good,
@@ -707,5 +727,123 @@ theorem spok_revealed_binding (hA : ArithOK) {π : SignaturePoK} {cpk : Commitme
         List.getElem?_eq_none (by omega), List.getElem?_eq_none (by omega)]
   · exact Or.inr (Or.inl he)
   · exact Or.inr (Or.inr he)
+
+/-! ### an altered hidden response `s_5[j0]` -/
+
+/-- a list as long as a duplicate-free index list `U` is `U.map` of "look up by rank in `U`". -/
+theorem eq_map_idxOf {U : List Nat} (hU : U.Nodup) (l : List Int) (hl : l.length = U.length) :
+    l = U.map (fun j => l.getD (U.idxOf j) 0) := by
+  apply List.ext_getElem (by simp [hl])
+  intro k h1 h2
+  simp only [List.getElem_map]
+  rw [hU.idxOf_getElem k (by omega), List.getD_eq_getElem?_getD, List.getElem?_eq_getElem h1]
+  rfl
+
+/-- **C15 (altered `s_5[j0]`).** For a statement of the honest shape (strictly ascending `U` with
+members `< n`, `s_5` as long as `U`, revealed messages `revealedOf msgs U`): if the proof is still
+accepted after the `j0`-th hidden response is replaced by a different value, then there is an
+`OrderRelation` on the commitment base `g_p` of the hidden position `p = U[j0]` (read off `in_4`),
+or the hash inputs collide. -/
+theorem spok_field_tamper_s5 (hA : ArithOK) {π : SignaturePoK} {cpk : CommitmentPK} {pk : PublicKey}
+    {bases : List Int} {U : List Nat} {tv tv' tw tw' : List Draw}
+    (hN : 1 < pk.N) (hg : ∀ g ∈ cpk.gBases, Int.gcd g pk.N = 1) (hh : Int.gcd cpk.h pk.N = 1)
+    (msgs : List Int) (hn : msgs.length ≤ cpk.gBases.length)
+    (hU : U.Pairwise (· < ·)) (hUn : ∀ i ∈ U, i < msgs.length) (hs5 : π.s5.length = U.length)
+    (j0 : Nat) (hj0 : j0 < U.length) (x' : Int) (hne : x' ≠ π.s5.getD j0 0)
+    (h : nisp5Verify π cpk pk bases (revealedOf msgs U) U msgs.length tv = .ok (true, tv'))
+    (h' : nisp5Verify { π with s5 := π.s5.set j0 x' } cpk pk bases (revealedOf msgs U) U msgs.length tw
+      = .ok (true, tw')) :
+    OrderRelation pk.N (cpk.gBases.getD (U.getD j0 0) 1) ∨ ConcatAmbiguity ∨ ClHashCollision := by
+  obtain ⟨v, v', hc0, hl | he⟩ := tamper_hash h h' rfl
+  · left
+    have h4 := hl.2.2.2.1
+    have hgU : ∀ g ∈ cpk.gBases, IsU pk.N g := fun g hgm => isU_of_gcd (by omega) (hg g hgm)
+    have hhU := isU_of_gcd (by omega) hh
+    have hnd : U.Nodup := hU.imp (fun hab => Nat.ne_of_lt hab)
+    have eh3 : v'.h3 = v.h3 := pure_inj (v'.e_h3.symm.trans v.e_h3)
+    have ecx : v'.cx = v.cx := pure_inj (v'.e_cx.symm.trans v.e_cx)
+    have hm4 : Good pk.N v.m4 := mixLoop_good hA hN _ _ _ _ _ hgU _ _ _ _ _ _ good_one v.e_m4
+    have hm4' : Good pk.N v'.m4 := mixLoop_good hA hN _ _ _ _ _ hgU _ _ _ _ _ _ good_one v'.e_m4
+    have hh3 := good_of_pw hA hN hhU v.e_h3
+    have hcx := good_of_pw_nonpos hA hN (by omega) v.e_cx
+    unfold View.in4 at h4
+    rw [eh3, ecx, tmod_good hN (good_mul (good_mul hm4 hh3) hcx),
+      tmod_good hN (good_mul (good_mul hm4' hh3) hcx)] at h4
+    have h4 := can_inj hN h4
+    rw [rp_mul_good (good_mul hm4 hh3) hcx, rp_mul_good hm4 hh3,
+      rp_mul_good (good_mul hm4' hh3) hcx, rp_mul_good hm4' hh3] at h4
+    have hmm : rp pk.N v.m4 = rp pk.N v'.m4 := add_right_cancel (add_right_cancel h4)
+    -- forward specification of both loops
+    have hfil := filter_contains_eq hU hUn
+    have hs := eq_map_idxOf hnd π.s5 hs5
+    have hs' := eq_map_idxOf hnd (π.s5.set j0 x') (by simp [hs5])
+    obtain ⟨Q, hQ, -, -, hQr⟩ := mixLoop_spec hA hN cpk.gBases π.s5 (revealedOf msgs U) U π.challenge
+      hgU (fun j => π.s5.getD (U.idxOf j) 0) (fun i => msgs.getD i 0) msgs.length 0 0 0 1 (by omega)
+      (by rw [List.drop_zero, hfil]; exact hs) (by rw [List.drop_zero]; rfl) (by omega) (isU_one _)
+    obtain ⟨Q', hQ', -, -, hQr'⟩ := mixLoop_spec hA hN cpk.gBases (π.s5.set j0 x')
+      (revealedOf msgs U) U π.challenge
+      hgU (fun j => (π.s5.set j0 x').getD (U.idxOf j) 0) (fun i => msgs.getD i 0) msgs.length 0 0 0 1
+      (by omega) (by rw [List.drop_zero, hfil]; exact hs') (by rw [List.drop_zero]; rfl) (by omega)
+      (isU_one _)
+    obtain rfl : Q = v.m4 := pure_inj (hQ.symm.trans v.e_m4)
+    obtain rfl : Q' = v'.m4 := pure_inj (hQ'.symm.trans v'.e_m4)
+    rw [hQr, hQr'] at hmm
+    have hmm := sub_eq_zero.mpr (add_left_cancel hmm)
+    rw [← Finset.sum_sub_distrib] at hmm
+    have hp : U.getD j0 0 = U[j0] := by
+      rw [List.getD_eq_getElem?_getD, List.getElem?_eq_getElem hj0]; rfl
+    have hpU : U[j0] ∈ U := List.getElem_mem hj0
+    rw [Finset.sum_eq_single U[j0]] at hmm
+    · rw [if_pos (by simp [hpU]), if_pos (by simp [hpU]), ← sub_smul] at hmm
+      simp only [hnd.idxOf_getElem j0 hj0] at hmm
+      rw [List.getD_eq_getElem?_getD (l := π.s5.set j0 x'), List.getElem?_set_self (by omega)] at hmm
+      rw [hp]
+      exact orderRelation_of_zsmul hN (hgU _ (getD_mem (by have := hUn _ hpU; omega) 1))
+        (k := π.s5.getD j0 0 - x') (sub_ne_zero.mpr hne.symm) hmm
+    · intro j _ hjne
+      by_cases hc : U.contains j = true
+      · rw [if_pos hc, if_pos hc]
+        have hjU : j ∈ U := by simpa using hc
+        have hk : U.idxOf j ≠ j0 := by
+          intro hk
+          apply hjne
+          have := List.getElem_idxOf (List.idxOf_lt_length_of_mem hjU)
+          simp only [hk] at this
+          exact this.symm
+        rw [List.getD_eq_getElem?_getD (l := π.s5.set j0 x'), List.getElem?_set_ne (Ne.symm hk),
+          ← List.getD_eq_getElem?_getD, sub_self]
+      · rw [if_neg hc, if_neg hc, sub_self]
+    · intro hnot
+      exact absurd (Finset.mem_Ico.mpr ⟨by omega, by have := hUn _ hpU; omega⟩) hnot
+  · exact Or.inr he
+
+/-! ### an observation: surplus list entries are never read -/
+
+/-- **Observation (the claim "does not verify with different revealed attributes" is not literally
+true).** `nisp5_MultiAttr_verify_proof` never compares `s_5.len()` with the number of hidden positions
+nor `messages.len()` with the number of revealed positions: an accepted proof is still accepted with
+arbitrary values appended to `s_5`, and against a revealed-message list with arbitrary messages
+appended. (The proof encoding is malleable in `s_5`; a verifier that is shown surplus "revealed"
+attributes learns nothing about them from an accepting run.) -/
+theorem spok_surplus_ignored {π : SignaturePoK} {cpk : CommitmentPK} {pk : PublicKey}
+    {bases rev : List Int} {U : List Nat} {n : Nat} {tv tv' : List Draw}
+    (h : nisp5Verify π cpk pk bases rev U n tv = .ok (true, tv')) (e1 e2 : List Int) (tw : List Draw) :
+    nisp5Verify { π with s5 := π.s5 ++ e1 } cpk pk bases (rev ++ e2) U n tw = .ok (true, tw) := by
+  obtain ⟨v, hv⟩ := accept_hash h
+  have hcond : ¬ (bases.length < n ∧ cpk.gBases.length < n) := by
+    intro hc
+    unfold nisp5Verify at h
+    rw [if_pos hc] at h
+    cases h
+  unfold nisp5Verify
+  simp only []
+  rw [if_neg hcond]
+  simp only [pure_bind, mixLoop_append _ _ _ _ e1 e2 _ _ _ _ _ _ _ _ v.e_tCx,
+    mixLoop_append _ _ _ _ e1 e2 _ _ _ _ _ _ _ _ v.e_m4, v.e_g0, v.e_a, v.e_itCx, v.e_ib, v.e_ib6,
+    v.e_ig, v.e_ig8, v.e_cc, v.e_g7, v.e_h1, v.e_cw, v.e_cw4, v.e_ih, v.e_ih2, v.e_h3, v.e_cx,
+    v.e_g4, v.e_h9, v.e_ce, pure_apply]
+  refine congrArg (fun z => CRes.ok (z, tw)) ?_
+  rw [beq_iff_eq]
+  exact hv
 
 end Zk.C15
